@@ -41,11 +41,13 @@ type c20WantChk struct {
 	Bad  string `json:"bad,omitempty"` // SQL literal the check forbids ("" = no behavioural probe)
 }
 type c20WantFK struct {
-	Table string   `json:"table"`
-	From  []string `json:"from"`
-	Ref   string   `json:"ref"`
-	To    []string `json:"to"`
-	Name  string   `json:"name,omitempty"`
+	Table    string   `json:"table"`
+	From     []string `json:"from"`
+	Ref      string   `json:"ref"`
+	To       []string `json:"to"`
+	Name     string   `json:"name,omitempty"`
+	OnDelete string   `json:"on_delete,omitempty"` // "" = not judged
+	OnUpdate string   `json:"on_update,omitempty"`
 }
 type c20WantCol struct {
 	Col        string `json:"col"`
@@ -203,9 +205,11 @@ type c20HaveIdx struct {
 	Cols   []string
 }
 type c20HaveFK struct {
-	Ref  string
-	From []string
-	To   []string
+	Ref      string
+	From     []string
+	To       []string
+	OnUpdate string
+	OnDelete string
 }
 
 func c20IndexList(db *gorm.DB, rec *Recorder, table string) []c20HaveIdx {
@@ -248,19 +252,19 @@ func c20FKList(db *gorm.DB, rec *Recorder, table string) []c20HaveFK {
 	byID := map[int]*c20HaveFK{}
 	var ids []int
 	c20Quiet(rec, func() {
-		rows, err := db.Session(&gorm.Session{NewDB: true}).Raw("SELECT id, `table`, `from`, `to` FROM pragma_foreign_key_list(?) ORDER BY id, seq", table).Rows()
+		rows, err := db.Session(&gorm.Session{NewDB: true}).Raw("SELECT id, `table`, `from`, `to`, on_update, on_delete FROM pragma_foreign_key_list(?) ORDER BY id, seq", table).Rows()
 		if err != nil {
 			return
 		}
 		defer rows.Close()
 		for rows.Next() {
 			var id int
-			var ref, from string
+			var ref, from, onu, ond string
 			var to *string
-			rows.Scan(&id, &ref, &from, &to)
+			rows.Scan(&id, &ref, &from, &to, &onu, &ond)
 			h := byID[id]
 			if h == nil {
-				h = &c20HaveFK{Ref: ref}
+				h = &c20HaveFK{Ref: ref, OnUpdate: onu, OnDelete: ond}
 				byID[id] = h
 				ids = append(ids, id)
 			}
